@@ -688,8 +688,12 @@ fn position_cmd(args: &[String]) -> i32 {
         fen = format!("{} {} {} {} {} {}", parts[0], parts[1], parts[2], parts[3], counters.0, counters.1);
         let list: Vec<String> = ms.iter().map(|m| m.uci()).collect();
         let cmd = if list.is_empty() { format!("position fen {}", fen) } else { format!("position fen {} moves {}", fen, list.join(" ")) };
-        fl.verif_handle_command(&cmd);
+        let crashed = std::panic::catch_unwind(std::panic::AssertUnwindSafe(|| fl.verif_handle_command(&cmd))).is_err();
         rep.evals += 1;
+        if crashed {
+            rep.violation = Some(format!("{{\"input\": {{\"cmd\": {}}}, \"real\": \"the engine process panics (see stderr)\", \"expected\": \"position set up, no panic\"}}", jstr(&cmd)));
+            return rep.finish();
+        }
         let mut p = start.clone();
         for m in &ms { p = apply(&p, *m); }
         let got = eng_pos_string(fl.verif_board());
